@@ -9,6 +9,9 @@
 #include <rapidcheck.h>
 #include "../../vlib/vlib.h"
 #include <pthread.h>
+#include <sys/syscall.h>
+#include <unistd.h>
+#include <fcntl.h>
 #include <atomic>
 #include <deque>
 extern "C" {
@@ -319,6 +322,92 @@ Outcome run_rwmany_case(const Case &c) {
   vl::stats().klass("kind_rwmany_h" + std::to_string(H >= 2047 ? 2047 : H >= 127 ? 127 : 1) + "plus");
   return o;
 }
+// a reader behind a WAITING writer (C02: read mode is grantable whenever no writer HOLDS the lock; "several readers can hold the lock at the
+// same time"; rounds in which the first reader leaves only after the second one has entered must run to completion).  Reader A holds, writer
+// W is parked inside p_rwlock_writer_lock, then reader B calls p_rwlock_reader_lock: the call has to return while A still holds.  The
+// verdict is a state, not a time: B asleep in a futex wait inside its lock call (two looks one second apart) while only A holds the lock.
+static bool tid_parked(pid_t tid) {
+  char p[96], b[512]; snprintf(p, sizeof p, "/proc/self/task/%d/stat", (int)tid);
+  int fd = open(p, O_RDONLY); if (fd < 0) return false; ssize_t n = read(fd, b, sizeof b - 1); close(fd); if (n <= 0) return false; b[n] = 0;
+  const char *rp = strrchr(b, ')'); if (!rp || rp[1] != ' ' || rp[2] != 'S') return false;
+  snprintf(p, sizeof p, "/proc/self/task/%d/syscall", (int)tid);
+  fd = open(p, O_RDONLY); if (fd < 0) return false; n = read(fd, b, sizeof b - 1); close(fd); if (n <= 0) return false; b[n] = 0;
+  return atoi(b) == 202;   // futex
+}
+struct RwWait { PRWLock *rw = nullptr; std::atomic<int> a_held{0}, w_about{0}, w_got{0}, b_go{0}, b_got{0}, a_release{0}; std::atomic<pid_t> tid_w{0}, tid_b{0}; };
+RwWait *RWW = nullptr;
+static void nap_ms(long ms) { struct timespec ts = {ms / 1000, (ms % 1000) * 1000000L}; nanosleep(&ts, NULL); }
+void *rww_a(void *) { RwWait &g = *RWW; p_rwlock_reader_lock(g.rw); g.a_held.store(1); while (!g.a_release.load()) nap_ms(2); g.a_held.store(0); p_rwlock_reader_unlock(g.rw); return NULL; }
+void *rww_w(void *) { RwWait &g = *RWW; while (!g.a_held.load()) nap_ms(1); g.tid_w.store((pid_t)syscall(SYS_gettid)); g.w_about.store(1); p_rwlock_writer_lock(g.rw); g.w_got.store(g.a_held.load() ? 2 : 1); p_rwlock_writer_unlock(g.rw); return NULL; }
+void *rww_b(void *) { RwWait &g = *RWW; while (!g.b_go.load()) nap_ms(1); g.tid_b.store((pid_t)syscall(SYS_gettid)); p_rwlock_reader_lock(g.rw); g.b_got.store(1); p_rwlock_reader_unlock(g.rw); return NULL; }
+Outcome run_rwwait_case(const Case &c) {
+  Outcome o; RwWait g; RWW = &g; g.rw = p_rwlock_new();
+  pthread_t a, w, b; pthread_create(&a, NULL, rww_a, NULL); pthread_create(&w, NULL, rww_w, NULL); pthread_create(&b, NULL, rww_b, NULL);
+  // wait until the writer sleeps inside its lock call (two looks 20 ms apart); give up without a verdict after 20 s
+  bool w_parked = false;
+  for (int i = 0; i < 1000 && !w_parked && !g.w_got.load(); i++) { nap_ms(20); if (g.w_about.load() && tid_parked(g.tid_w.load())) { nap_ms(20); w_parked = tid_parked(g.tid_w.load()); } }
+  if (g.w_got.load() == 2) { o.klass = "exclusion"; o.verdict = "p_rwlock_writer_lock returned while a reader holds the lock"; }
+  bool decided = false;
+  if (w_parked && o.verdict.empty()) {
+    g.b_go.store(1);
+    for (int i = 0; i < 3000 && !g.b_got.load(); i++) {
+      nap_ms(20);
+      if (i >= 25 && !g.b_got.load() && g.tid_b.load() && tid_parked(g.tid_b.load())) { nap_ms(1000); if (!g.b_got.load() && tid_parked(g.tid_b.load()) && !g.w_got.load()) { decided = true; break; } }
+    }
+    if (decided) { o.klass = "reader-behind-waiting-writer"; o.verdict = "p_rwlock_reader_lock does not return although only a reader holds the lock: the calling thread sleeps in a futex wait (two looks one second apart) behind a writer that is itself still waiting - two readers cannot hold the lock together, and a round in which the first reader leaves after the second has entered never completes"; }
+    else if (g.b_got.load()) vl::stats().klass("rwwait_second_reader_admitted_while_a_writer_waits");
+    else vl::stats().count("rwwait_inconclusive");
+  } else if (o.verdict.empty()) vl::stats().count("rwwait_writer_never_parked_inconclusive");
+  g.a_release.store(1); g.b_go.store(1);
+  pthread_join(a, NULL); pthread_join(w, NULL); pthread_join(b, NULL);
+  p_rwlock_free(g.rw); RWW = nullptr;
+  o.nontrivial = w_parked; o.fp = vl::fnv1a(to_text(c)); vl::stats().klass("kind_rwwait");
+  return o;
+}
+// a burst of signals under ONE lock hold (C03: "a signal issued while threads are waiting wakes at least one of them ... a consumer that
+// re-checks its predicate in a loop under the mutex never misses an event", for any number of events).  The consumer sleeps in
+// p_cond_variable_wait; the producer takes the mutex and does `++items; signal` (or broadcast) B times before it unlocks, B from a list that
+// contains the powers of two around which a wake-up generation counter of 8 / 16 bits would wrap.  Verdict by state: after the producer
+// has unlocked, the consumer still sleeps in a futex wait (two looks one second apart) although its predicate is true.
+struct SigBurst { PMutex *m = nullptr; PCondVariable *cv = nullptr; long items = 0; std::atomic<int> waiting{0}, woke{0}; std::atomic<pid_t> tid{0}; };
+SigBurst *SB = nullptr;
+void *sigburst_consumer(void *) {
+  SigBurst &g = *SB; g.tid.store((pid_t)syscall(SYS_gettid));
+  p_mutex_lock(g.m); g.waiting.store(1);
+  while (g.items == 0) p_cond_variable_wait(g.cv, g.m);
+  p_mutex_unlock(g.m); g.woke.store(1);
+  return NULL;
+}
+Outcome run_sigburst_one(const Case &c, long B, bool bc);
+Outcome run_sigburst_case(const Case &c) {
+  // every generated case walks the whole list, signals and broadcasts
+  static const long bursts[] = {1, 2, 255, 256, 257, 1000, 65535, 65536, 65537, 131072, 3 * 65536L};
+  Outcome o;
+  for (long B : bursts) for (int bc = 0; bc < 2; bc++) { o = run_sigburst_one(c, B, bc == 1); if (!o.verdict.empty()) return o; }
+  o.nontrivial = true; o.fp = vl::fnv1a(to_text(c));
+  return o;
+}
+Outcome run_sigburst_one(const Case &c, long B, bool bc) {
+  (void)c;
+  Outcome o; SigBurst g; SB = &g; g.m = p_mutex_new(); g.cv = p_cond_variable_new();
+  pthread_t t; pthread_create(&t, NULL, sigburst_consumer, NULL);
+  bool parked = false;
+  for (int i = 0; i < 1000 && !parked; i++) { nap_ms(10); if (g.waiting.load() && tid_parked(g.tid.load())) { nap_ms(20); parked = tid_parked(g.tid.load()); } }
+  p_mutex_lock(g.m);
+  for (long i = 0; i < B; i++) { ++g.items; if (bc) p_cond_variable_broadcast(g.cv); else p_cond_variable_signal(g.cv); }
+  p_mutex_unlock(g.m);
+  bool stuck = false;
+  for (int i = 0; i < 3000 && !g.woke.load(); i++) { nap_ms(20); if (i >= 25 && !g.woke.load() && tid_parked(g.tid.load())) { nap_ms(1000); if (!g.woke.load() && tid_parked(g.tid.load())) { stuck = true; break; } } }
+  if (stuck) { o.klass = "signal-burst-lost"; o.verdict = string("the consumer still sleeps in p_cond_variable_wait (futex wait, two looks one second apart) although ") + std::to_string(B) + (bc ? " broadcasts" : " signals") + " were issued while it was waiting and its predicate has been true since the first of them"; }
+  else if (!g.woke.load()) vl::stats().count("sigburst_inconclusive");
+  // let the consumer go whatever happened
+  for (int i = 0; i < 200 && !g.woke.load(); i++) { p_mutex_lock(g.m); p_cond_variable_broadcast(g.cv); p_mutex_unlock(g.m); nap_ms(10); }
+  if (g.woke.load()) { pthread_join(t, NULL); p_cond_variable_free(g.cv); p_mutex_free(g.m); } else vl::stats().count("sigburst_consumer_abandoned");
+  SB = nullptr;
+  o.nontrivial = parked && B >= 256; o.fp = vl::fnv1a("sigburst " + std::to_string(B) + (bc ? "b" : "s"));
+  vl::stats().klass(string("kind_sigburst_") + (B >= 65536 ? "65536plus" : B >= 256 ? "256plus" : "small") + (parked ? "" : "_consumer_not_parked_first"));
+  return o;
+}
 // long hold: one thread keeps the lock for seconds while another sits in the blocking lock call the whole time (hundreds of millions of
 // failed acquisition attempts for a spinlock): the waiter's call may return only after the release.  One-sided: a slow machine makes the
 // waiter try fewer times, never makes a correct lock fail.
@@ -338,7 +427,7 @@ void *longhold_holder(void *) {
     struct timespec w1, c1; clock_gettime(CLOCK_MONOTONIC, &w1);
     double wall = (w1.tv_sec - w0.tv_sec) * 1e3 + (w1.tv_nsec - w0.tv_nsec) / 1e6, cpu = 0;
     if (have) { if (clock_gettime(wc, &c1) != 0) break; /* the waiter is gone: its lock call returned */ cpu = (c1.tv_sec - c0.tv_sec) * 1e3 + (c1.tv_nsec - c0.tv_nsec) / 1e6; }
-    if (g.lock == 'm' ? wall >= std::min(1000L, g.hold_ms) : cpu >= g.hold_ms) break;
+    if (g.lock == 'm' ? wall >= g.hold_ms : cpu >= g.hold_ms) break;   // a sleeping waiter is given the whole hold time on the wall clock
     if (wall >= 20.0 * g.hold_ms) break;
   }
   g.held.store(2);                                   // about to release
@@ -354,13 +443,20 @@ void *longhold_waiter(void *) {
   if (g.lock == 'm') p_mutex_unlock(g.m); else p_spinlock_unlock(g.s);
   return NULL;
 }
+Outcome run_longhold_one(const Case &c);
 Outcome run_longhold_case(const Case &c) {
+  // lock 'b': the spinlock and the mutex one after the other (every generated long-hold case does both)
+  if (c.lock != 'b') return run_longhold_one(c);
+  Case s1 = c; s1.lock = 's'; Outcome o = run_longhold_one(s1); if (!o.verdict.empty()) return o;
+  Case m1 = c; m1.lock = 'm'; Outcome o2 = run_longhold_one(m1); o2.fp = vl::fnv1a(to_text(c)); return o2;
+}
+Outcome run_longhold_one(const Case &c) {
   Outcome o; LongHold g; LH = &g;
   g.lock = c.lock; g.hold_ms = std::max(500, std::min(c.N, 20000));
   g.m = p_mutex_new(); g.s = p_spinlock_new();
   pthread_t a; pthread_create(&g.waiter, NULL, longhold_waiter, NULL); pthread_create(&a, NULL, longhold_holder, NULL);
   pthread_join(a, NULL); pthread_join(g.waiter, NULL);
-  if (g.violated.load()) { o.klass = "long-hold"; o.verdict = string(c.lock == 'm' ? "p_mutex_lock" : "p_spinlock_lock") + " returned in the waiting thread while the holder was still inside its critical section (held until the waiter had spent " + std::to_string(g.hold_ms) + " ms of CPU time in the call)"; }
+  if (g.violated.load()) { o.klass = "long-hold"; o.verdict = string(c.lock == 'm' ? "p_mutex_lock" : "p_spinlock_lock") + " returned in the waiting thread while the holder was still inside its critical section (held until the waiter had spent " + std::to_string(g.hold_ms) + " ms " + (c.lock == 'm' ? "waiting" : "of CPU time") + " in the call)"; }
   p_mutex_free(g.m); p_spinlock_free(g.s);
   o.nontrivial = true; o.fp = vl::fnv1a(to_text(c)); vl::stats().klass(string("kind_longhold_") + c.lock);
   LH = nullptr;
@@ -443,6 +539,8 @@ Outcome run_case(const Case &c) {
   if (c.kind == "trypoll") return run_trypoll_case(c);
   if (c.kind == "longhold") return run_longhold_case(c);
   if (c.kind == "rwmany") return run_rwmany_case(c);
+  if (c.kind == "rwwait") return run_rwwait_case(c);
+  if (c.kind == "sigburst") return run_sigburst_case(c);
   Outcome o;
   Shared g; G = &g;
   g.c = c;
@@ -523,7 +621,7 @@ rc::Gen<Case> genCase(bool tsan, bool thorough) {
                     if (c.kind == "bbuf") { c.N = std::min(c.N, tsan ? 120 : 3000); if (c.T % 2) c.T++; c.T = std::min(c.T, tsan ? 6 : 12); }
                     if (c.kind == "thr") { c.T = std::min(c.T, 8); c.N = std::min(c.N, 2000); }
                     if (c.kind == "trylockrec") c.N = std::min(c.N, 3000);
-                    if (c.kind == "longhold") { c.T = 2; c.N = (int)vl::envl("VERIF_HOLD_MS", 3500); c.lock = (c.noise % 4) ? 's' : 'm'; }
+                    if (c.kind == "longhold") { c.T = 2; c.N = (int)vl::envl("VERIF_HOLD_MS", 3500); c.lock = 'b'; }
                     // a spinlock with more spinning threads than free cores degenerates into whole time slices burnt per hand-over
                     if ((c.kind == "lockrec" || c.kind == "trylockrec") && c.lock == 's') c.T = std::min(c.T, tsan ? 4 : 8);
                     return c; });
